@@ -48,6 +48,7 @@ def ob_broadcast_unfiltered(run, o):
 
 
 def check(run):
+    D.ob_state_mutations(run, "O18.9", ['consensus::votor::Votor'], 'the Votor forwards a bundle whenever it is handed one: any memory of earlier bundles (already forwarded for this slot, ..) filters the very re-broadcast the mechanism exists for')
     # "all of them pass validation at a receiver": the certificates in the bundle are the ones the pool created / admitted - created only
     # behind their quorum predicate over the right stake counters and aggregated from exactly the stored votes of their kind
     from . import C03 as _C03
@@ -67,28 +68,13 @@ def check(run):
     fam = prog.family(RFS)
     if not fam:
         o.missing("PoolImpl::recover_from_standstill")
-    U = prog.reachable_from([b.defpath for b in fam])
-    counts = {}
-    for d in sorted(U):
-        b = prog.bodies[d]
-        if b.generated:
-            continue
-        for s in panics.sites(b, prog, include_overflow=True):
-            if s.kind == "assert" and s.what.startswith("Overflow"):
-                # Slot::next on the finalized slot: u64 increment of a slot that is bounded by wall-clock time
-                if fshort(d).startswith("types::slot::Slot"):
-                    continue
-            k = (fshort(d), s.kind, s.what)
-            counts.setdefault(k, []).append(s)
-    for k, ss in sorted(counts.items()):
-        rev = REVIEWED.get(k)
-        if rev and len(ss) <= rev[0]:
-            o.ok("%s|%s|%s" % k, "reviewed: " + rev[1], ss[0].span)
-        else:
-            for s in ss[(rev[0] if rev else 0):]:
-                chain = prog.call_chain([b.defpath for b in fam], s.body.defpath)
-                o.fail(s.key(fshort), "panic site (%s %s %r) reachable from recover_from_standstill" % (s.kind, s.what, s.msg), s.span,
-                       {"call_chain": [fshort(x) for x in chain] if chain else None})
+    from . import panic_review as _PR
+
+    def _skip(s_):
+        # Slot::next on the finalized slot: u64 increment of a slot that is bounded by wall-clock time
+        return s_.kind == "assert" and s_.what.startswith("Overflow") and fshort(s_.body.defpath).startswith("types::slot::Slot")
+    nb_, ns_ = panics.review(o, prog, [b.defpath for b in fam], REVIEWED, fshort, include_overflow=True, skip=_skip, auto=_PR.auto)
+    U = range(nb_)
     run.notes.append("O18.1 examined %d bodies reachable from recover_from_standstill" % len(U))
 
     # ------------------------------------------------------------------ O18.2
